@@ -78,20 +78,23 @@ SearchVerdict(F, j) ==
              IN  Bad("search", [m |-> j.search[k][1], q |-> j.search[k][2], star |-> j.search[k][3],
                                 want |-> want(j.search[k])])
 
-\* --- the call did to the entities what the design says (binding of the projection)
+\* --- is the call explained by the model?  NOT a property clause: the property speaks about the
+\* agreement of the indexes with the entities after any outcome of a call; whether a call is refused
+\* or carried out, with which exception and which return value, is free.  A record whose entity
+\* state after the call is neither "carried out as modelled" nor "refused, nothing changed" is
+\* only counted ("unexplained"); its post-state is judged like any other.
 EntsOK(F, pre, a, r) ==
     LET q == Pad(r.post.ent, DOMAIN pre.ent) IN
-    CASE a.op = "clear" ->
-            \E c \in {"", "info_null"} : LET e == OClear(F, pre, a.x, c) IN e.s.ent = q /\ e.exc = r.exc
+    \/ q = pre.ent                                             \* refused / no-op, whatever was raised
+    \/ CASE a.op = "clear" ->
+            \E c \in {"", "info_null", "worldspawn"} : OClear(F, pre, a.x, c).s.ent = q
       [] a.op = "make_unique" ->      \* the new name is make_unique's business, not the index's
-            /\ r.exc = ""
             /\ q = [pre.ent EXCEPT ![a.x].name = q[a.x].name, ![a.x].tk = q[a.x].tk]
             /\ (q[a.x].tk = pre.ent[a.x].tk \/ pre.ent[a.x].tk = "")
-      [] a.op = "pop_class" ->
-            \/ (pre.ent = q /\ r.exc = "KeyError")
-            \/ LET e == OPopClassRemove(F, pre, a.x) IN e.s.ent = q /\ (e.exc = "any" \/ (e.exc = r.exc /\ e.val = r.val))
-      [] OTHER ->
-            LET e == Apply(F, pre, a) IN e.s.ent = q /\ e.exc = r.exc /\ e.val = r.val
+      [] a.op = "pop_class" -> OPopClassRemove(F, pre, a.x).s.ent = q
+      [] a.op = "update" ->           \* all of it, or the part before a refusal
+            Apply(F, pre, a).s.ent = q \/ OSetClass(F, pre, a.x, a.v).s.ent = q
+      [] OTHER -> Apply(F, pre, a).s.ent = q
 
 StepVerdict(r) ==
     LET F == FoldOf(r)
@@ -103,13 +106,12 @@ StepVerdict(r) ==
     IN  IF ~(CanonSt(F, r.pre) /\ StateVerdict(F, r.pre).ok) THEN Bad("tainted", 0)
         ELSE IF ~sv.ok THEN sv
         ELSE IF ~qv.ok THEN qv
-        ELSE IF ~EntsOK(F, pre, a, r)
-            THEN Bad(IF "x" \in DOMAIN a /\ pre.ent[a.x].spawn THEN "spawn.step" ELSE "step.ents", 0)
-        ELSE IF r.k = "iter" /\ r.exc # "" THEN Bad("iter.exc", "")
+        ELSE IF r.k = "iter" /\ r.exc # "" THEN Bad("iter.exc", r.exc)      \* the ITERATION raised
         ELSE IF r.k = "iter" /\ ~IterOK(Lookup(IF r.a.kind = "class" THEN pre.bc[r.a.m] ELSE pre.bt[r.a.m], r.a.key),
                                         Lookup(IF r.a.kind = "class" THEN StOf(F, r.post).bc[r.a.m]
                                                ELSE StOf(F, r.post).bt[r.a.m], r.a.key), r.got)
             THEN Bad("iter.delivered", 0)
+        ELSE IF ~EntsOK(F, pre, a, r) THEN Bad("unexplained", 0)             \* counted, not a verdict
         ELSE Good
 
 \* a state that is not the result of a modelled call (e.g. straight after VMF.parse)
